@@ -50,4 +50,15 @@ def solver_switch_in_context(trace, violation):
     return False
 
 
-TRIGGERS = {"solver_switch_in_context": solver_switch_in_context, "dict_direction_dropped": dict_direction_dropped, "optlang_dblmax": optlang_dblmax, "optlang_exact_clone": optlang_exact_clone}
+def has_long_id(op):
+    """A reaction identifier so long that the reverse variable's name (id + 14 characters) exceeds GLPK's 255."""
+    if len(str(op.get("new", ""))) > 241 and op.get("op") == "rename_rxn":
+        return True
+    return any(isinstance(x, dict) and len(str(x.get("id", ""))) > 241 for x in op.get("rxns", []))
+
+
+def id_over_solver_name_limit(trace, violation):
+    return any(has_long_id(o) for o in trace["ops"])
+
+
+TRIGGERS = {"solver_switch_in_context": solver_switch_in_context, "id_over_solver_name_limit": id_over_solver_name_limit, "dict_direction_dropped": dict_direction_dropped, "optlang_dblmax": optlang_dblmax, "optlang_exact_clone": optlang_exact_clone}
